@@ -57,7 +57,7 @@ inductive Action
   | clientStep (c : Client)       -- the client performs its next selector micro-step
   deriving DecidableEq, Repr, Inhabited
 
-def pcOf (s : State) (c : Client) : Pc := s.pcs c
+@[reducible] def pcOf (s : State) (c : Client) : Pc := s.pcs c
 def setPc (s : State) (c : Client) (p : Pc) : State :=
   { s with pcs := fun d => if d = c then p else s.pcs d }
 
@@ -100,10 +100,16 @@ def step (asIs : Bool) (s : State) : Action → State
     | .idle =>
       (match s.queue with
        | [] => s
+       -- a forwarded call completes for the thread that is blocked on it (dzn::shell): the guards
+       -- `pc = waitClaim / waitRelease` hold on every reachable state by construction of postClaim /
+       -- postRelease; a call of a thread that is not waiting would simply be dropped
        | .claim c :: rest =>
-         if s.busy then { setPc s c .idle with queue := rest }            -- denied: retry later
+         if pcOf s c ≠ .waitClaim then { s with queue := rest }
+         else if s.busy then { setPc s c .idle with queue := rest }       -- denied: retry later
          else { setPc s c .granted with queue := rest, busy := true }
-       | .release c :: rest => { setPc s c .released with queue := rest, busy := false }
+       | .release c :: rest =>
+         if pcOf s c ≠ .waitRelease then { s with queue := rest }
+         else { setPc s c .released with queue := rest, busy := false }
        | .out :: _ => { s with lock := some .dispatcher, dpc := .outLocked })
     | .outLocked =>
       { s with dpc := .outDelivered, deliveries := (s.selected, holders s) :: s.deliveries }
